@@ -275,6 +275,41 @@ def check_shape(t, shape, kinds, triples):
                 t.violation("C04: %s differs from its definition" % what,
                             {"engine": "E2", "module": MOD, "part": "shape", "shape": shape, "kind": kind, "how": how,
                              "query": what, "expected": exp, "observed": got})
+    # trees that come out of an importer: every attribute of the original has been read (query_all above), the tree is
+    # exported with a level limit and imported again - the imported nodes answer from THEIR links
+    if m.n > 1:
+        from anytree.exporter import DictExporter
+        from anytree.importer import DictImporter
+
+        for kind in ("node", "anynode"):
+            if kind not in kinds:
+                continue
+            nodes = tree.build(m, tree.default_factory(kind), "topdown")
+            query_all(nodes, tree.IdMap(nodes), m, False)
+            for ml in range(1, m.height(0) + 2):
+                root = DictImporter(nodecls=type(nodes[0])).import_(DictExporter(maxlevel=ml).export(nodes[0]))
+                keep = [v for v in range(m.n) if m.depth(v) < ml]
+                new_ix = {v: k for k, v in enumerate(keep)}
+                m2 = tree.Model([None if m.par[v] is None else new_ix[m.par[v]] for v in keep],
+                                [[new_ix[c] for c in m.ch[v] if c in new_ix] for v in keep])
+                nodes2 = []
+
+                def collect(nd):
+                    nodes2.append(nd)
+                    for c in nd.children:
+                        collect(c)
+                collect(root)
+                t.c["states"] += 1
+                t.c["imported_trees"] += 1
+                if len(nodes2) != m2.n:
+                    bad, cnt = [("number of imported nodes", m2.n, len(nodes2))], 1
+                else:
+                    bad, cnt = query_all(nodes2, tree.IdMap(nodes2), m2, False)
+                t.c["evaluations"] += cnt
+                for what, exp, got in bad[:3]:
+                    t.violation("C04: %s of a tree imported from a level-limited export differs from its definition" % what,
+                                {"engine": "E2", "module": MOD, "part": "shape", "shape": shape, "kind": kind, "how": "imported, maxlevel=%d" % ml,
+                                 "query": what, "expected": exp, "observed": got})
     t.sample({"shape": shape, "queries": "all attributes of every node, commonancestors of all pairs%s" % (" and triples" if triples else "")}, cap=1)
 
 
@@ -420,5 +455,5 @@ def run(tier):
                 "values compared; non-trivial = multi-node tree / a mutation that changed the forest" % nmax,
         "bounds": bounds,
     }
-    return {"tally": t, "coverage": cov, "guards": ("nontrivial", "query_rounds", "refused_ops", "primed_histories", "faulted_ops_in_histories", "deep_chain_queries"),
+    return {"tally": t, "coverage": cov, "guards": ("imported_trees", "nontrivial", "query_rounds", "refused_ops", "primed_histories", "faulted_ops_in_histories", "deep_chain_queries"),
             "assumptions": ["bounded tree sizes and history depth 2 after any reachable forest"]}
